@@ -3,41 +3,42 @@
 //! A table of callbacks that a simulation harness may install. Nothing is installed by default,
 //! in which case every hook falls through to the shipped behaviour.
 
-use std::sync::atomic::{AtomicUsize, Ordering};
+use std::sync::atomic::{AtomicPtr, Ordering};
+use std::ptr::null_mut;
 
-static WALL_CLOCK:  AtomicUsize = AtomicUsize::new(0);
-static SCHED_POINT: AtomicUsize = AtomicUsize::new(0);
-static OVERRUN:     AtomicUsize = AtomicUsize::new(0);
+static WALL_CLOCK:  AtomicPtr<()> = AtomicPtr::new(null_mut());
+static SCHED_POINT: AtomicPtr<()> = AtomicPtr::new(null_mut());
+static OVERRUN:     AtomicPtr<()> = AtomicPtr::new(null_mut());
 
 pub fn install_wall_clock(f: fn() -> Option<u64>) {
-    WALL_CLOCK.store(f as usize, Ordering::SeqCst)
+    WALL_CLOCK.store(f as *mut (), Ordering::SeqCst)
 }
 pub fn install_sched_point(f: fn(&'static str)) {
-    SCHED_POINT.store(f as usize, Ordering::SeqCst)
+    SCHED_POINT.store(f as *mut (), Ordering::SeqCst)
 }
 pub fn install_overrun(f: fn(usize, usize, usize)) {
-    OVERRUN.store(f as usize, Ordering::SeqCst)
+    OVERRUN.store(f as *mut (), Ordering::SeqCst)
 }
 
 #[inline]
 pub fn wall_clock() -> Option<u64> {
     match WALL_CLOCK.load(Ordering::SeqCst) {
-        0 => None,
-        p => (unsafe {std::mem::transmute::<usize, fn() -> Option<u64>>(p)})()
+        p if p.is_null() => None,
+        p => (unsafe {std::mem::transmute::<*mut (), fn() -> Option<u64>>(p)})()
     }
 }
 #[inline]
 pub fn sched_point(id: &'static str) {
     match SCHED_POINT.load(Ordering::SeqCst) {
-        0 => (),
-        p => (unsafe {std::mem::transmute::<usize, fn(&'static str)>(p)})(id)
+        p if p.is_null() => (),
+        p => (unsafe {std::mem::transmute::<*mut (), fn(&'static str)>(p)})(id)
     }
 }
 #[inline]
 pub fn overrun(len: usize, additional: usize, capacity: usize) {
     match OVERRUN.load(Ordering::SeqCst) {
-        0 => (),
-        p => (unsafe {std::mem::transmute::<usize, fn(usize, usize, usize)>(p)})(len, additional, capacity)
+        p if p.is_null() => (),
+        p => (unsafe {std::mem::transmute::<*mut (), fn(usize, usize, usize)>(p)})(len, additional, capacity)
     }
 }
 
